@@ -518,7 +518,7 @@ def emit_dcase(env, doc, ku, sd, ost, obs):
         T.emit_otable(sd), T.emit_otable(ost), E.nlit(obs["level"]), E.outcome(obs["reg"]), E.outcome(obs["tr"]))
 
 
-def eval_shards(items, ctype, fns, tag, per=150):
+def eval_shards(items, ctype, fns, tag, per=150, header=None):
     """items: Gallina case literals.  Returns {fn: [indices]} or raises RuntimeError."""
     shards = []
     for s in range(0, len(items), per):
@@ -526,7 +526,7 @@ def eval_shards(items, ctype, fns, tag, per=150):
         for fn in fns:
             body += "Eval vm_compute in (indices_where %s cases 0).\n" % fn
         shards.append(body)
-    res = core.eval_cases(shards, tag, HEADER)
+    res = core.eval_cases(shards, tag, header or HEADER)
     out = {fn: [] for fn in fns}
     for si, (rc, so, se) in enumerate(res):
         vals = core.parse_eval(so)
@@ -1108,10 +1108,14 @@ def stream_fast(rep, rnd, n, model_ok):
 def run(rep, tier):
     rnd = random.Random(core.seed() * 1000003 + 10)
     quick = tier == "quick"
-    proofs_ok, model_ok = core.standard_proof_obligations(rep, "C10", ["theories/Check/C10chk.vo"])
+    proofs_ok, model_ok = core.standard_proof_obligations(rep, "C10", ["theories/Check/C10chk.vo",
+                                                                       "theories/Check/C10hchk.vo"])
     stream_deser(rep, rnd, 600 if quick else 5000, model_ok)
     stream_from_trusted(rep, rnd, 240 if quick else 2400, model_ok)
     stream_fast(rep, rnd, 300 if quick else 2500, model_ok)
+    from harness import c10hist
+    c10hist.stream_fast_hist(rep, rnd, 500 if quick else 5000, (6, 2, 350) if quick else (6, 4, 4000), model_ok, fresh,
+                             eval_shards)
     if not proofs_ok:
         from harness.props.c17 import broken_build
         broken_build(rep)
@@ -1162,6 +1166,9 @@ def replay(obj):
         bad = cons_o[0] == "ok" and (tr_o[0] != "ok" or not (cons == tr))
         print("required : equal (==)  ->", "VIOLATED" if bad else "holds")
         return 1 if bad else 0
+    if st == "fast_hist":
+        from harness import c10hist
+        return c10hist.replay(obj)
     if st == "fast":
         env, sn, compact = obj["env"], obj["serialize_none"], obj["compact"]
         rnd = random.Random(0)
